@@ -325,6 +325,34 @@ def R2_rounding_primitives(run):
                   detail="forwards all four parameters in order")
 
 
+def _inplace_division_up(g):
+    """Increment blocks of g when g rounds one U256 division up in place: exactly one `.add(U256Muldiv::new(0, 1))`, applied to field 0 of a
+    U256Muldiv::div(..) result, reachable only on the non-zero side of `is_zero(field 1 of the same division)`, the zero side returning the
+    plain quotient. Empty set otherwise."""
+    inc = increment_blocks(g)
+    if len(inc) != 1:
+        return set()
+    bi = next(iter(inc))
+    t = g.blocks[bi]["t"]
+    pv = prov_of(g)
+    q = strip(pv.operand(t["a"][0], bi, len(g.blocks[bi]["s"])))
+    if not (q[0] == "field" and q[2] == "0" and strip(q[1])[0] == "call" and strip(q[1])[1].endswith("U256Muldiv::div")):
+        return set()
+    for at in A.atoms(g):
+        x = strip(at.term)
+        if not (x[0] == "call" and x[1].endswith("U256Muldiv::is_zero") and len(x[2]) == 1):
+            continue
+        r = strip(x[2][0])
+        if not (r[0] == "field" and r[2] == "1" and strip(r[1]) == strip(q[1])):
+            continue
+        zero_side = cfg.reach(g, at.true_targets[0], cut_blocks=[at.block])
+        rest_side = cfg.reach(g, at.false_targets[0], cut_blocks=[at.block])
+        # the increment only when the remainder is not zero; the zero side still reaches a successful return
+        if bi in rest_side and bi not in zero_side and cfg.success_reach(g, at.true_targets[0], cut_blocks=[bi]) and cfg.dominates(g, at.block, bi):
+            return inc
+    return set()
+
+
 def R3_next_price(run):
     run.title("R3", "get_next_sqrt_price: exact_in == a_to_b selects from_a (division always rounded up, MIN/MAX price errors), otherwise from_b "
                     "(delta rounded up iff !exact_in); add/sub of the amount follows exact_in")
@@ -353,12 +381,25 @@ def R3_next_price(run):
     run.touch(g)
     ev = preach.call_events(facts, g, {}, lambda p: p == BM + "div_round_up_if_u256", depth=0)
     got = {v[2] for _, v in ev}
-    run.check("R3", "from_a-division-up", got == {True}, "from_a: the price division is not always rounded up (round_up = %s)" % sorted(map(str, got)), loc=g.loc(),
-              detail="div_round_up_if_u256(.., true)")
+    inplace = set()
+    if not ev:
+        # the rounding division written in place: (q, r) = n.div(d, _); r.is_zero() ? q : q + 1 - the one increment of the function is taken
+        # exactly when the remainder of the same division is not zero
+        inplace = _inplace_division_up(g)
+        run.check("R3", "from_a-division-up", bool(inplace), "from_a: the price division is neither div_round_up_if_u256(.., true) nor, written in place, quotient + 1 exactly when the "
+                  "remainder of the same division is non-zero", loc=g.loc(), detail="(q, r) = n.div(d); r.is_zero() ? q : q + 1")
+    else:
+        run.check("R3", "from_a-division-up", got == {True}, "from_a: the price division is not always rounded up (round_up = %s)" % sorted(map(str, got)), loc=g.loc(),
+                  detail="div_round_up_if_u256(.., true)")
     for val, want_fn, other in ((True, "U256Muldiv::add", "U256Muldiv::sub"), (False, "U256Muldiv::sub", "U256Muldiv::add")):
         ev = preach.call_events(facts, g, {"amount_specified_is_input": val},
                                 lambda p: p.endswith("U256Muldiv::add") or p.endswith("U256Muldiv::sub"), depth=0)
         got = {p.rsplit("math::u256_math::", 1)[-1] for p, _ in ev}
+        if inplace:
+            # the rounding increment is an add of its own, not the denominator's
+            live = preach.flow(g, {"amount_specified_is_input": val}).reachable() - inplace
+            got = {(callee_path(t) or "").rsplit("math::u256_math::", 1)[-1] for bi, t in g.calls() if bi in live and not g.blocks[bi]["c"]
+                   and (callee_path(t) or "").endswith(("U256Muldiv::add", "U256Muldiv::sub"))}
         run.check("R3", "from_a-denominator[exact_in=%d]" % val, got == {want_fn},
                   "from_a: with exact_in=%s the amount·price product must be %s the shifted liquidity" % (val, "added to" if val else "subtracted from"),
                   loc=g.loc(), expected=want_fn, found=str(sorted(got)), detail=want_fn)
@@ -366,7 +407,7 @@ def R3_next_price(run):
     for at in A.atoms(g):
         for (op, a, b) in fail_conditions(at):
             for (o, x, y) in ((op, a, b), (A.SWAP[op], b, a)):
-                if mentions(x, lambda s: s[0] == "call" and s[1].endswith("div_round_up_if_u256")):
+                if mentions(x, lambda s: s[0] == "call" and (s[1].endswith("div_round_up_if_u256") or (inplace and s[1].endswith("U256Muldiv::div")))):
                     if o == "Lt" and const_val(y) == 4295048016:
                         lo = True
                     if o == "Gt" and const_val(y) == 79226673515401279992447579055:
